@@ -168,7 +168,24 @@ def floatToRat (f : Float) : ℚ :=
 def intToFloat (i : Int) : Float :=
   if i ≥ 0 then Float.ofNat i.toNat else -(Float.ofNat (-i).toNat)
 
-def ratToFloat (q : ℚ) : Float := intToFloat q.num / Float.ofNat q.den
+/-- Nearest double of a rational whose numerator or denominator is too large to be a double
+itself (more than ~300 digits: `Float.ofNat` would give `inf` and the quotient `NaN`): the
+quotient is formed in integers with 66 significant bits plus a sticky bit, then scaled. -/
+def ratToFloatScaled (q : ℚ) : Float :=
+  let n := q.num.natAbs
+  let d := q.den
+  if n = 0 then 0.0 else
+  let shift : Int := (d.log2 : Int) - (n.log2 : Int) + 66
+  let num := if shift ≥ 0 then n <<< shift.toNat else n
+  let den := if shift ≥ 0 then d else d <<< (-shift).toNat
+  let quo := num / den
+  let m := if num % den = 0 then quo else quo ||| 1
+  let f := (Float.ofNat m).scaleB (-shift)
+  if q.num < 0 then -f else f
+
+def ratToFloat (q : ℚ) : Float :=
+  if q.num.natAbs.log2 < 1000 && q.den.log2 < 1000 then intToFloat q.num / Float.ofNat q.den
+  else ratToFloatScaled q
 
 def floatOps : MathOps ℚ where
   sqrt x := floatToRat (Float.sqrt (ratToFloat x))
